@@ -232,6 +232,17 @@ func extractOaRules() (string, error) {
 	fmt.Fprintf(&b, "/-- the `yaml.Node{...}` literal each such helper returns: (helper, keys, source text of its `Tag` value or \"\"). -/\ndef nodeHelpers : List (String × List String × String) := %s\n", leanList(helperRows))
 	fmt.Fprintf(&b, "/-- numeric conversions applied to rule values before they are stored (apply function, accessor, conversion). -/\ndef conversions : List (String × String × String) := %s\n", leanList(countConv))
 	fmt.Fprintf(&b, "/-- the well-known format switch of applyStringConstraints: accessor ↦ format, in source order. -/\ndef formatSwitch : List (String × String) := %s\n", leanPairs(formatSwitch))
+	// what can keep a field's rules from being read at all: the calls made inside the conditions of the early returns
+	// that precede the rule translation (and of the helper that fetches the rules, if one is used). Nil-ness tests
+	// make no calls; a condition on the CONTENT of the rules (an `ignore` option, a kind, a name) does.
+	var guardCalls []string
+	for _, fn := range []string{"extractValidationConstraints", "checkIfFieldRequired"} {
+		if fd := findFunc(f, fn); fd != nil {
+			guardCalls = append(guardCalls, earlyReturnCalls(f, fd, 1)...)
+		}
+	}
+	b.WriteString("/-- calls made in the conditions of early returns before the rules of a field are translated / its `required` flag is read (helpers followed one level). -/\n")
+	fmt.Fprintf(&b, "def guardCalls : List String := %s\n", leanStrList(guardCalls))
 	b.WriteString("end Sebuf.Gen.OaRules\n")
 	return b.String(), nil
 }
@@ -312,4 +323,57 @@ func findFuncInDir(dir, name string) *ast.FuncDecl {
 		}
 	}
 	return nil
+}
+
+// earlyReturnCalls lists the calls that occur in the conditions of the top-level `if … { return … }` statements of fd
+// that precede its first switch (or its end), following helpers of the same file that are called in plain assignments
+// (`x := helper(field)`) `depth` levels down.
+func earlyReturnCalls(f *ast.File, fd *ast.FuncDecl, depth int) []string {
+	var out []string
+	for _, st := range fd.Body.List {
+		if _, ok := st.(*ast.SwitchStmt); ok {
+			break
+		}
+		switch x := st.(type) {
+		case *ast.IfStmt:
+			returns := false
+			for _, b := range x.Body.List {
+				if _, ok := b.(*ast.ReturnStmt); ok {
+					returns = true
+				}
+			}
+			if !returns {
+				continue
+			}
+			ast.Inspect(x.Cond, func(n ast.Node) bool {
+				if c, ok := n.(*ast.CallExpr); ok {
+					out = append(out, fd.Name.Name+": "+srcOf(c))
+				}
+				return true
+			})
+			if x.Init != nil {
+				ast.Inspect(x.Init, func(n ast.Node) bool {
+					if c, ok := n.(*ast.CallExpr); ok {
+						if id, ok := c.Fun.(*ast.Ident); ok && depth > 0 {
+							if h := findFunc(f, id.Name); h != nil && h.Body != nil {
+								out = append(out, earlyReturnCalls(f, h, depth-1)...)
+							}
+						}
+					}
+					return true
+				})
+			}
+		case *ast.AssignStmt:
+			for _, r := range x.Rhs {
+				if c, ok := r.(*ast.CallExpr); ok {
+					if id, ok := c.Fun.(*ast.Ident); ok && depth > 0 {
+						if h := findFunc(f, id.Name); h != nil && h.Body != nil {
+							out = append(out, earlyReturnCalls(f, h, depth-1)...)
+						}
+					}
+				}
+			}
+		}
+	}
+	return out
 }
